@@ -25,7 +25,7 @@ class Job:
                  timeout=None, mem_gb=None, witness=True, witnesses=None, known=(), replay='native',
                  native_srcs=(), native_link=(), functions=(), bounds='', models=(), outside='',
                  solver=None, object_bits=None, slice=False, fs_array=300, expect_fail_desc=None, wdefs=(),
-                 witness_unwind=None, weight=1):
+                 witness_unwind=None, weight=1, tags=()):
         self.name = name
         self.src = src                    # path relative to /verif/harness
         self.defs = list(defs)
@@ -53,6 +53,7 @@ class Job:
         self.wdefs = list(wdefs)
         self.witness_unwind = witness_unwind
         self.weight = weight
+        self.tags = list(tags)
 
 
 def sh(cmd, timeout=None, mem_gb=None, cwd=None, env=None):
